@@ -103,7 +103,11 @@ def random_instances(n: int, seed: int) -> tuple[int, list[dict]]:
         groups = [used[a:b] for a, b in zip([0] + cuts, cuts + [len(used)])]
         L = rng.randint(0, 40)
         scale = rng.choice([1, 10, 1e6, 1e-3])
-        kind = rng.choice(['int', 'float', 'ties', 'zeros'])
+        kind = rng.choice(['int', 'float', 'ties', 'zeros', 'cubes'])
+        if kind == 'cubes':
+            # n**3 cost model of a network mixing very wide and tiny layers:
+            # a cost range of 1 : 1e11, all sums exact in float64
+            L = rng.randint(2, 9)
         work = {}
         for li in range(L):
             nf = rng.randint(1, 3)
@@ -113,6 +117,9 @@ def random_instances(n: int, seed: int) -> tuple[int, list[dict]]:
                     c: float = rng.randint(0, 50)
                 elif kind == 'float':
                     c = rng.random() * scale
+                elif kind == 'cubes':
+                    c = float(rng.choice([2, 3, 4, 5, 6, 4096, 8192, 8192])
+                              ** 3)
                 elif kind == 'ties':
                     c = rng.choice([1, 2])
                 else:
@@ -121,6 +128,15 @@ def random_instances(n: int, seed: int) -> tuple[int, list[dict]]:
             work[f'layer{li}'] = fs
         colocate = rng.random() < 0.5
         msg = props_only(work, groups, W, colocate)
+        if not msg and kind in ('cubes', 'int', 'ties') and 1 <= L <= 9:
+            # the greedy rule itself, with exact arithmetic and any
+            # tie-breaking (never "almost least loaded")
+            from harness import assign
+            from kfac.assignment import KAISAAssignment
+            res = KAISAAssignment.greedy_assignment(work, groups, W, colocate)
+            if not assign.valid_greedy(work, groups, W, colocate, res):
+                msg = ('greedy: placement is not an outcome of the least-'
+                       f'loaded rule under any tie-breaking: {res}')
         if msg:
             bad.append({'work': work, 'groups': groups, 'W': W,
                         'colocate': colocate, 'msg': msg})
